@@ -334,9 +334,24 @@ def check(repo: Repo, run: Run) -> None:
            f"KEVENT_SIZE evaluates to {ks!r}: the record loops would read records of the wrong size", facts={"value": ks})
 
     # ---- R4 body is total: one return, no raise/loop, only decoding calls
+    # (the property is about 64-byte records: a path condition that only compares constants with len(record) is settled)
+    from .c20 import _ceval, _Undecided
+    len64 = {T("call", (T("builtin", ("len",)), (inp,), ())): sym.const(64)}
+
+    def settled(pc):
+        """(path still possible for a 64-byte record?, the conditions that remain open)"""
+        rest = []
+        for c, pol in pc:
+            try:
+                if bool(_ceval(repo, sym.subst(c, len64))) != pol:
+                    return False, []
+            except _Undecided:
+                rest.append((c, pol))
+        return True, rest
     rets = [r for r in rec.returns if r.kind == "return"]
-    raises = [r for r in rec.returns if r.kind == "raise"]
-    run.ob("R4", MOD, "from_kd_buf", "single unconditional return", len(rets) == 1 and not rets[0].pc and not raises,
+    raises = [r for r in rec.returns if r.kind == "raise" and settled(r.pc)[0]]
+    open_pc = settled(rets[0].pc)[1] if len(rets) == 1 else []
+    run.ob("R4", MOD, "from_kd_buf", "single unconditional return", len(rets) == 1 and not open_pc and not raises,
            f"{len(rets)} returns, {len(raises)} raise statements: decoding is not a total function of the record",
            nontrivial=False)
     undecided = []
@@ -364,6 +379,19 @@ def check(repo: Repo, run: Run) -> None:
         bound[name] = a
     for k, v in kwargs:
         bound[k] = v
+    # `Enum(x).value` is x - provided x is the value of a member (anything else raises ValueError): the field is judged as
+    # x, the membership as a totality obligation of its own below
+    enum_lookups = []
+
+    def _enum_value(x):
+        if x.op == "attr" and x.a[1] == "value" and x.a[0].op == "call" and x.a[0].a[0].op == "class" and len(x.a[0].a[1]) == 1 \
+                and not x.a[0].a[2]:
+            f_ = repo.lookup(x.a[0].a[0].a[0])
+            if f_ and f_[0] == "class" and f_[2].enum_kind:
+                enum_lookups.append((f_[2], x.a[0].a[1][0]))
+                return x.a[0].a[1][0]
+        return x
+    bound = {k: normal.rewrite(v, _enum_value) for k, v in bound.items()}
     run.ob("R2", MOD, "from_kd_buf", "constructor arity", len(args) <= len(fields) and set(bound) == set(fields),
            f"Kevent(...) binds {sorted(bound)} but the tuple has fields {fields}", nontrivial=False)
     ev = Evaluator(repo, inp, 64)
@@ -381,9 +409,10 @@ def check(repo: Repo, run: Run) -> None:
             run.ob("R2", MOD, "from_kd_buf", f"field {name}", False, f"Kevent has no field {name} bound")
             continue
         foreign = sorted({sym.pretty(x)[:60] for x in sym.walk(bound[name])
-                          if x.op in ("global", "attr", "param", "widen", "elem", "lambda")
+                          if x.op in ("global", "attr", "param", "widen", "elem", "lambda", "unknown")
                           and not (x.op == "param" and x == inp)
-                          and not (x.op == "global" and x.a[0] in ("struct.unpack", "struct.unpack_from", "int.from_bytes"))
+                          and not (x.op == "global" and x.a[0] in ("struct.unpack", "struct.unpack_from", "int.from_bytes",
+                                                                   "struct.calcsize", "struct.iter_unpack"))
                           and not (x.op == "attr" and x.a[0].op == "builtin")})
         if foreign:
             # an immutable module-level object (a compiled pattern, a struct.Struct) and what is computed from the record
@@ -394,7 +423,8 @@ def check(repo: Repo, run: Run) -> None:
                     f_ = repo.lookup(x.a[0])
                     if f_ and f_[0] == "const" and isinstance(f_[2], ast.Call) and \
                             (repo.dotted(f_[1], f_[2].func) or "") in ("re.compile", "struct.Struct") \
-                            and all(isinstance(a_, (ast.Constant, ast.BinOp, ast.Name, ast.Attribute)) for a_ in f_[2].args):
+                            and all(isinstance(a_, (ast.Constant, ast.BinOp, ast.Name, ast.Attribute, ast.JoinedStr))
+                                    for a_ in f_[2].args):
                         return True
                 if x.op == "attr":
                     return stateless(x.a[0])
@@ -410,9 +440,10 @@ def check(repo: Repo, run: Run) -> None:
                        witness="a record whose argument bytes contain 0x0a, e.g. an argument equal to 10")
                 continue
             if all(stateless(x) for x in sym.walk(bound[name])
-                   if x.op in ("global", "attr", "param", "widen", "elem", "lambda")
+                   if x.op in ("global", "attr", "param", "widen", "elem", "lambda", "unknown")
                    and not (x.op == "param" and x == inp)
-                   and not (x.op == "global" and x.a[0] in ("struct.unpack", "struct.unpack_from", "int.from_bytes"))
+                   and not (x.op == "global" and x.a[0] in ("struct.unpack", "struct.unpack_from", "int.from_bytes",
+                                                            "struct.calcsize", "struct.iter_unpack"))
                    and not (x.op == "attr" and x.a[0].op == "builtin")):
                 undecided.append(f"field {name} is computed through {foreign[:2]}: outside what the byte-level evaluation follows")
                 continue
@@ -502,10 +533,33 @@ def check(repo: Repo, run: Run) -> None:
             run.ob("R4", MOD, "from_kd_buf", f"unpack into {p_.key} names", len(v) == p_.key,
                    f"{len(v)} values are unpacked into {p_.key} names: raises ValueError for every record",
                    nontrivial=False, line=p_.lineno)
+    for eci, arg in enum_lookups:
+        try:
+            iv = ev.ev(arg)
+        except (Unsupported, Raises) as e_:
+            undecided.append(f"{eci.name}(...) is looked up by a value the byte-level evaluation does not follow ({e_})")
+            continue
+        if not isinstance(iv, Int):
+            undecided.append(f"{eci.name}(...) is looked up by something that is not an integer of the record")
+            continue
+        free = [b for b in iv.trimmed() if b not in ("zero", "one")]
+        members = {v for v in eci.member_dict().values() if isinstance(v, int)}
+        if len(set(free)) <= 12:
+            fixed = sum(1 << i for i, b in enumerate(iv.trimmed()) if b == "one")
+            pos = [i for i, b in enumerate(iv.trimmed()) if b not in ("zero", "one")]
+            possible = {fixed | sum(1 << p_ for j, p_ in enumerate(pos) if m_ >> j & 1) for m_ in range(1 << len(pos))}
+            missing = sorted(possible - members)
+        else:
+            missing = ["(most values)"]
+        run.ob("R4", MOD, "from_kd_buf", f"{eci.name}(<bits of the record>) is total", not missing,
+               "" if not missing else f"{eci.name}(x) raises ValueError when x is {missing[:4]}: records carrying such a value do not "
+                                      f"decode", facts={"members": sorted(members)[:16]}, nontrivial=False)
     # no other partial operations: every recorded subscript is a constant index into an unpack result (checked by ev)
     allowed_calls = ("struct.unpack", "struct.unpack_from", "int.from_bytes")
     for c in rec.calls:
         f = c.func
+        if f.op == "class" and any(f.a[0] == eci.qualname for eci, _ in enum_lookups):
+            continue            # judged just above
         nm = f.a[0] if f.op in ("global", "builtin") else sym.pretty(f)
         if nm == "int.from_bytes" or (c.func.op == "attr" and c.func.a[1] == "from_bytes"):
             nm = "int.from_bytes"
